@@ -667,6 +667,39 @@ class Inliner:
                         return new
                     except _Bail as ex:
                         self.skipped.append((g.qual, str(ex)))
+        # x = [helper(..) for t in S] / return [helper(..) for t in S]  with a statement helper as the element:
+        # the loop it abbreviates (acc = []; for t in S: e = helper(..); acc.append(e)), so that the helper can be spliced
+        if isinstance(st, (ast.Assign, ast.AnnAssign, ast.Return)) and isinstance(getattr(st, "value", None), ast.ListComp):
+            lc, olc = st.value, ost.value
+            if len(lc.generators) == 1 and not lc.generators[0].is_async and isinstance(lc.elt, ast.Call):
+                g = self._callee(fctx, olc.elt, stack)
+                tg_ok = isinstance(st, ast.Return) or (len(st.targets if isinstance(st, ast.Assign) else [st.target]) == 1 and isinstance((st.targets[0] if isinstance(st, ast.Assign) else st.target), ast.Name))
+                loopvars = {n.id for n in ast.walk(lc.generators[0].target) if isinstance(n, ast.Name)}
+                if g is not None and not self._is_expr_function(g, plain=True) and tg_ok and not (loopvars & caller_names - {n.id for n in ast.walk(lc) if isinstance(n, ast.Name)}):
+                    self.counter += 1
+                    acc = (st.targets[0] if isinstance(st, ast.Assign) else st.target).id if not isinstance(st, ast.Return) else f"_acc{self.counter}"
+                    tmp = f"_e{self.counter}"
+                    gen, ogen = lc.generators[0], olc.generators[0]
+                    init = ast.copy_location(ast.Assign(targets=[ast.Name(id=acc, ctx=ast.Store())], value=ast.List(elts=[], ctx=ast.Load())), st)
+                    one = ast.copy_location(ast.Assign(targets=[ast.Name(id=tmp, ctx=ast.Store())], value=lc.elt), st)
+                    oone = ast.copy_location(ast.Assign(targets=[ast.Name(id=tmp, ctx=ast.Store())], value=olc.elt), ost)
+                    app = ast.copy_location(ast.Expr(value=ast.Call(func=ast.Attribute(value=ast.Name(id=acc, ctx=ast.Load()), attr="append", ctx=ast.Load()), args=[ast.Name(id=tmp, ctx=ast.Load())], keywords=[])), st)
+                    body = [one, app]
+                    obody = [oone, app]
+                    for cond, ocond in zip(reversed(gen.ifs), reversed(ogen.ifs)):
+                        body = [ast.copy_location(ast.If(test=cond, body=body, orelse=[]), st)]
+                        obody = [ast.copy_location(ast.If(test=ocond, body=obody, orelse=[]), ost)]
+                    loop = ast.copy_location(ast.For(target=gen.target, iter=gen.iter, body=body, orelse=[]), st)
+                    oloop = ast.copy_location(ast.For(target=ogen.target, iter=ogen.iter, body=obody, orelse=[]), ost)
+                    before = len(self.inlined)
+                    caller_names |= {acc, tmp}
+                    new_loop = self._stmt(fctx, loop, oloop, stack, caller_names)
+                    if len(self.inlined) > before:
+                        tail = [ast.copy_location(ast.Return(value=ast.Name(id=acc, ctx=ast.Load())), st)] if isinstance(st, ast.Return) else []
+                        res = [init] + new_loop + tail
+                        for s_ in res:
+                            ast.fix_missing_locations(s_)
+                        return res
         # statement splice
         call = ocall = None
         target = None
